@@ -16,8 +16,8 @@ CFG = dict(
         "on the implementation oracle (raw value of every global vs reported static type) over generated programs",
     ],
     assumptions=[
-        "ConvComplete (hypothesis of soundness_partial): conversions between units of equal dimension vector succeed; "
-        "validated on the implementation by C04 (every ordered pair of same-dimension prelude units, thorough tier)",
+        "NamesDistinct: distinct rows of the unit table have distinct names (kernel-checked on the regenerated prelude "
+        "table: Oblig/UnitTable.unitNames_nodup); it yields ConvComplete (Lemmas/QtyCanon.convComplete)",
         "a zero value is exempt from the unit check (the polymorphic zero carries no unit)",
         "FFI functions are trusted to return what their declared signature says; `parse` and `quantity_cast` are not generated",
         "known findings: composite non-integer exponents (`(m^2)^(0.1+0.2)`: static exponent 3/10, run-time exponent "
@@ -30,14 +30,16 @@ CLAIM = dict(
          "the static relation HasDim (numbers incl. the polymorphic zero, units with prefixes, + - * / negation, powers "
          "with constant rational exponents), evaluation by the VM's quantity operations yields a value whose unit has "
          "the static dimension vector (or is a zero), or fails with a division by zero; no_incompatible_units — it "
-         "never fails with a unit incompatibility. Both under the explicit hypothesis ConvComplete (same-dimension "
-         "conversions succeed), which C04 validates exhaustively on the implementation. The rest of the property "
+         "never fails with a unit incompatibility; soundness — the same for every unit table with distinct unit names, "
+         "because conversions between units of equal dimension vector succeed (convComplete: sorting by name, merging "
+         "and dropping zero exponents yields a canonical form that is unique for a given exponent vector; about 500 "
+         "lines, Lemmas/QtyCanon.lean); the prelude table satisfies the hypotheses (Oblig/UnitTable). The rest of the property "
          "(functions incl. generic and inferred ones, where-clauses, conditionals, structs, lists, unit and dimension "
          "definitions) is checked on the real interpreter: generated type-directed programs, the raw value of every "
          "global — recursively through struct fields and list elements — against the static type the checker reports, "
          "and the kind of every run-time failure.",
     design_ref="DESIGN.md section 5 C01",
-    note="Partial: the theorem covers the expression fragment and assumes ConvComplete; statements about functions, "
+    note="Partial: the theorems cover the expression fragment; statements about functions, "
          "structs and lists are exploration-level (implementation oracle over generated programs). Two genuine defects "
          "are recorded as known findings (composite non-integer exponents; polymorphic inf/NaN); the zero-on-the-left "
          "comparison defect was repaired.",
